@@ -29,6 +29,7 @@ var hists = []bind.Hist{
 	{LenBetween: true},
 	{Variant: 1},
 	{Variant: 2},
+	{Variant: 3},
 }
 
 func histName(h bind.Hist) string {
